@@ -21,6 +21,7 @@ import (
 	jose "github.com/go-jose/go-jose/v4"
 
 	"verif/internal/keys"
+	"verif/internal/sched"
 )
 
 // tokenReq is one request that arrived at the token endpoint.
@@ -62,6 +63,91 @@ type fakeOP struct {
 	discovery int
 	jwks      int
 	gate      *gate // part C: token requests are held here until the round's barrier opens
+	// part D: the other endpoints an RP instance talks to between logins
+	hist        []provReq
+	deviceCodes map[string]bool
+}
+
+// provReq is one request to an endpoint other than discovery / keys (part D; the token endpoint is logged here too).
+type provReq struct {
+	Endpoint string              `json:"endpoint"`
+	Form     map[string][]string `json:"form,omitempty"`
+	Answer   string              `json:"answer"`
+}
+
+func (f *fakeOP) base() string { return strings.TrimSuffix(f.issuer, "/") }
+
+func (f *fakeOP) histMark() int {
+	f.mu.Lock()
+	defer f.mu.Unlock()
+	return len(f.hist)
+}
+
+func (f *fakeOP) histSince(n int) []provReq {
+	f.mu.Lock()
+	defer f.mu.Unlock()
+	return append([]provReq(nil), f.hist[n:]...)
+}
+
+func (f *fakeOP) record(endpoint string, form url.Values, answer string) {
+	f.mu.Lock()
+	f.hist = append(f.hist, provReq{Endpoint: endpoint, Form: map[string][]string(form), Answer: answer})
+	f.mu.Unlock()
+}
+
+func readForm(req *http.Request) url.Values {
+	var body []byte
+	if req.Body != nil {
+		body, _ = io.ReadAll(req.Body)
+		req.Body.Close()
+	}
+	form, _ := url.ParseQuery(string(body))
+	if form == nil {
+		form = url.Values{}
+	}
+	return form
+}
+
+// otherEndpoints serves device authorization, end session, revocation and userinfo (part D). Every one of them is a
+// yield point (sched) while the RP's call is in flight at the provider.
+func (f *fakeOP) otherEndpoints(req *http.Request, u string) *http.Response {
+	switch u {
+	case f.base() + "/device_authorization":
+		sched.Point("provider:device_authorization")
+		form := readForm(req)
+		f.mu.Lock()
+		dc := fmt.Sprintf("dc-%d", len(f.deviceCodes))
+		if f.deviceCodes == nil {
+			f.deviceCodes = map[string]bool{}
+		}
+		f.deviceCodes[dc] = true
+		f.mu.Unlock()
+		f.record("device_authorization", form, "ok")
+		return jsonResp(req, 200, map[string]any{"device_code": dc, "user_code": "ABCD-EFGH", "verification_uri": f.base() + "/device", "verification_uri_complete": f.base() + "/device?user_code=ABCD-EFGH", "expires_in": 300, "interval": 5})
+	case f.base() + "/end_session":
+		sched.Point("provider:end_session")
+		form := readForm(req)
+		for k, v := range req.URL.Query() {
+			form[k] = append(form[k], v...)
+		}
+		f.record("end_session", form, "302")
+		resp := jsonResp(req, 302, map[string]string{})
+		loc := form.Get("post_logout_redirect_uri")
+		if loc == "" {
+			loc = f.base() + "/logged-out"
+		}
+		resp.Header.Set("Location", loc)
+		return resp
+	case f.base() + "/revoke":
+		sched.Point("provider:revoke")
+		f.record("revoke", readForm(req), "ok")
+		return jsonResp(req, 200, map[string]string{})
+	case f.issuer + "/userinfo":
+		sched.Point("provider:userinfo")
+		f.record("userinfo", url.Values{"authorization": {req.Header.Get("Authorization")}}, "ok")
+		return jsonResp(req, 200, map[string]any{"sub": "user-1", "name": "User One"})
+	}
+	return nil
 }
 
 func (f *fakeOP) setGate(g *gate) {
@@ -125,6 +211,9 @@ func (f *fakeOP) RoundTrip(req *http.Request) (*http.Response, error) {
 			"token_endpoint":                        f.tokenURL,
 			"jwks_uri":                              f.jwksURL,
 			"userinfo_endpoint":                     f.issuer + "/userinfo",
+			"device_authorization_endpoint":         f.base() + "/device_authorization",
+			"end_session_endpoint":                  f.base() + "/end_session",
+			"revocation_endpoint":                   f.base() + "/revoke",
 			"response_types_supported":              []string{"code"},
 			"subject_types_supported":               []string{"public"},
 			"id_token_signing_alg_values_supported": []string{"RS256"},
@@ -137,6 +226,9 @@ func (f *fakeOP) RoundTrip(req *http.Request) (*http.Response, error) {
 		return jsonResp(req, 200, jose.JSONWebKeySet{Keys: []jose.JSONWebKey{f.key.JWK()}}), nil
 	case u == stripQuery(f.tokenURL):
 		return f.token(req), nil
+	}
+	if resp := f.otherEndpoints(req, u); resp != nil {
+		return resp, nil
 	}
 	f.mu.Lock()
 	f.other = append(f.other, req.Method+" "+req.URL.String())
@@ -163,11 +255,13 @@ func (f *fakeOP) token(req *http.Request) *http.Response {
 	if g != nil {
 		g.arrive()
 	}
+	sched.Point("provider:token")
 	status, answer, payload := f.decide(&tr)
 	tr.Status, tr.Answer = status, answer
 	f.mu.Lock()
 	tr.N = len(f.log)
 	f.log = append(f.log, tr)
+	f.hist = append(f.hist, provReq{Endpoint: "token", Form: tr.Form, Answer: answer})
 	f.mu.Unlock()
 	return jsonResp(req, status, payload)
 }
@@ -208,7 +302,25 @@ func (f *fakeOP) decide(tr *tokenReq) (int, string, any) {
 			return 401, "invalid_client", oauthErr("invalid_client")
 		}
 	}
-	if tr.get("grant_type") != "authorization_code" {
+	switch tr.get("grant_type") {
+	case "authorization_code":
+	case "client_credentials":
+		return 200, "ok", map[string]any{"access_token": "at-client-credentials", "token_type": "Bearer", "expires_in": 3600}
+	case "refresh_token":
+		if tr.get("refresh_token") != "rt-1" {
+			return 400, "invalid_grant", oauthErr("invalid_grant")
+		}
+		return 200, "ok", f.tokens("at-refreshed")
+	case "urn:ietf:params:oauth:grant-type:device_code":
+		// never authorization_pending / slow_down: the RP would poll again
+		f.mu.Lock()
+		known := f.deviceCodes[tr.get("device_code")]
+		f.mu.Unlock()
+		if !known {
+			return 400, "expired_token", oauthErr("expired_token")
+		}
+		return 200, "ok", f.tokens("at-device")
+	default:
 		return 400, "unsupported_grant_type", oauthErr("unsupported_grant_type")
 	}
 	f.mu.Lock()
@@ -223,7 +335,10 @@ func (f *fakeOP) decide(tr *tokenReq) (int, string, any) {
 	if f.redirect != "" && tr.get("redirect_uri") != f.redirect {
 		return 400, "invalid_grant", oauthErr("invalid_grant")
 	}
-	access := "at-" + s256(tr.get("code"))[:16]
+	return 200, "ok", f.tokens("at-" + s256(tr.get("code"))[:16])
+}
+
+func (f *fakeOP) tokens(access string) map[string]any {
 	resp := map[string]any{"access_token": access, "token_type": "Bearer", "expires_in": 3600, "refresh_token": "rt-1"}
 	if f.idToken {
 		now := time.Now().Unix()
@@ -237,5 +352,5 @@ func (f *fakeOP) decide(tr *tokenReq) (int, string, any) {
 		}
 		resp["id_token"] = keys.SignJSON(f.key, claims)
 	}
-	return 200, "ok", resp
+	return resp
 }
